@@ -21,11 +21,16 @@ for key, b in sorted(blocks.items()):
     if not ok:
         print("NOT CONFIRMED", key, b); continue
     ID, N = key.split('-')
-    src = f"/tmp/seed/{ID}/out"; dst = f"/verif/seeded/{key}"
+    src = f"/tmp/seed/{ID}/out"; dst = f"/verif/seeded/{key}"; M = N
+    if not os.path.exists(f"{src}/change{N}.diff"):
+        # second round: /tmp/seed2/<ID>/out/change1|2.diff are stored as <ID>-3|-4 (C22 had no first round)
+        src = f"/tmp/seed2/{ID}/out"; M = str(int(N) - 2) if int(N) >= 3 else N
+    if not os.path.exists(f"{src}/change{M}.diff"):
+        print("sources gone for", key); continue
     os.makedirs(dst + "/demo", exist_ok=True)
-    shutil.copy(f"{src}/change{N}.diff", dst + "/patch.diff")
+    shutil.copy(f"{src}/change{M}.diff", dst + "/patch.diff")
     files = []
-    for f in glob.glob(f"{src}/demo{N}/*"):
+    for f in glob.glob(f"{src}/demo{M}/*"):
         if os.path.isfile(f):
             shutil.copy(f, dst + "/demo/"); files.append(os.path.basename(f))
     caught = any('exit=1' in c for c in b["checks"])
